@@ -142,8 +142,88 @@ def spec_ok(e):
     return k == "c" or (k == "k" and spec_ok(e[2])) or (k == "b" and e[2] in SPEC_OPS and spec_ok(e[3]) and spec_ok(e[4]))
 
 
+def render_sub(e, sub):
+    """render with parameter `id` replaced by the constant text sub[id] (e.g. "@" for a driver row)"""
+    k = e[0]
+    if k == "c":
+        return f"c {e[1]} {e[2]}"
+    if k == "o":
+        return f"c {e[1]} {sub[e[2]]}"
+    if k == "k":
+        return f"k {e[1]} {render_sub(e[2], sub)}"
+    return f"b {e[1]} {e[2]} {render_sub(e[3], sub)} {render_sub(e[4], sub)}"
+
+
+def params_of(e, acc=None):
+    acc = {} if acc is None else acc
+    if e[0] == "o":
+        acc[e[2]] = e[1]
+    elif e[0] == "k":
+        params_of(e[2], acc)
+    elif e[0] == "b":
+        params_of(e[3], acc)
+        params_of(e[4], acc)
+    return acc
+
+
+def consts_of(e, acc=None):
+    acc = [] if acc is None else acc
+    if e[0] == "c":
+        acc.append((e[1], e[2]))
+    elif e[0] == "k":
+        consts_of(e[2], acc)
+    elif e[0] == "b":
+        consts_of(e[3], acc)
+        consts_of(e[4], acc)
+    return acc
+
+
+def skeleton(e):
+    """shape of a tree without types and values: (c-y)-c"""
+    k = e[0]
+    if k == "c":
+        return "c"
+    if k == "o":
+        return "y" if e[2] == 0 else "z"
+    if k == "k":
+        return f"({e[1]}){skeleton(e[2])}"
+    a, b = skeleton(e[3]), skeleton(e[4])
+    if e[3][0] in "bk":
+        a = f"({a})"
+    if e[4][0] in "bk":
+        b = f"({b})"
+    return f"{a}{e[2]}{b}"
+
+
+def spec_ok_open(e):
+    """expressible in Spec.ConstExpr once parameters are replaced by constants"""
+    k = e[0]
+    return k in "co" or (k == "k" and spec_ok_open(e[2])) or (k == "b" and e[2] in SPEC_OPS and spec_ok_open(e[3]) and spec_ok_open(e[4]))
+
+
+def focus(e, after):
+    """the smallest sub-instruction of `e` that the pass changed (descend while exactly one operand differs)"""
+    while after is not None and e[0] == after[0] and e[0] in "bk" and e[1] == after[1]:
+        if e[0] == "k":
+            if e[2] == after[2] or e[2][0] not in "bk":
+                break
+            e, after = e[2], after[2]
+            continue
+        if e[2] != after[2]:
+            break
+        da, db = e[3] != after[3], e[4] != after[4]
+        if da and not db and e[3][0] in "bk" and after[3][0] in "bk":
+            e, after = e[3], after[3]
+        elif db and not da and e[4][0] in "bk" and after[4][0] in "bk":
+            e, after = e[4], after[4]
+        else:
+            break
+    return e
+
+
 class Real:
-    """runs the real pass on a tiny function computing the tree"""
+    """runs the real pass on a tiny single-block function computing the tree and reads the WHOLE
+    function back (from the returned value, through .a/.b/.src) - no assumption on what the pass matches"""
 
     def __init__(self):
         from ppci import ir, irutils
@@ -153,24 +233,42 @@ class Real:
         self.cf = ConstantFolder()
         self.T = {t.name: t for t in ir.value_types if t.is_integer}
 
-    def emit(self, bld, fn, e):
+    def emit(self, bld, fn, e, cache):
+        """equal sub-trees that contain a parameter become ONE instruction (a value used twice)"""
+        if e in cache:
+            return cache[e]
         ir = self.ir
         k = e[0]
         if k == "c":
-            return bld.emit(ir.Const(e[2], "cn", self.T[e[1]]))
+            return bld.emit(ir.Const(e[2], "cn", self.T[e[1]]))       # constants are not shared
         if k == "o":
-            p = ir.Parameter(f"y{e[2]}", self.T[e[1]])
-            fn.add_parameter(p)
-            return p
-        if k == "k":
-            src = self.emit(bld, fn, e[2])
-            return bld.emit(ir.Cast(src, "cast", self.T[e[1]]))
-        a = self.emit(bld, fn, e[3])
-        b = self.emit(bld, fn, e[4])
-        return bld.emit(ir.Binop(a, e[2], b, "binop", self.T[e[1]]))
+            v = ir.Parameter(f"y{e[2]}", self.T[e[1]])
+            fn.add_parameter(v)
+        elif k == "k":
+            src = self.emit(bld, fn, e[2], cache)
+            v = bld.emit(ir.Cast(src, "cast", self.T[e[1]]))
+        else:
+            a = self.emit(bld, fn, e[3], cache)
+            b = self.emit(bld, fn, e[4], cache)
+            v = bld.emit(ir.Binop(a, e[2], b, "binop", self.T[e[1]]))
+        if params_of(e):
+            cache[e] = v
+        return v
+
+    def readback(self, v):
+        ir = self.ir
+        if isinstance(v, ir.Const):
+            return ("c", v.ty.name, v.value)
+        if isinstance(v, ir.Parameter):
+            return ("o", v.ty.name, int(v.name[1:]))
+        if isinstance(v, ir.Cast):
+            return ("k", v.ty.name, self.readback(v.src))
+        if isinstance(v, ir.Binop):
+            return ("b", v.ty.name, v.operation, self.readback(v.a), self.readback(v.b))
+        return ("?", type(v).__name__, 0)
 
     def run(self, e):
-        """-> canonical description of what on_block did with the root instruction"""
+        """-> (observation, tree after the pass | None);  observation = `ok <tree after>` | `err <Exc>`"""
         ir = self.ir
         m = ir.Module("t", debug_db=self.DebugDb())
         bld = self.irutils.Builder()
@@ -180,27 +278,30 @@ class Real:
         blk = bld.new_block()
         fn.entry = blk
         bld.set_block(blk)
-        root = self.emit(bld, fn, e)
+        root = self.emit(bld, fn, e, {})
         ret = bld.emit(ir.Return(root))
-        a0 = root.a if isinstance(root, ir.Binop) else None
-        a0a = a0.a if isinstance(a0, ir.Binop) else None
         try:
             self.cf.run(m)
         except Exception as ex:  # noqa: BLE001 - the class name is the observation
-            return "err " + type(ex).__name__
-        res = ret.result
-        if isinstance(root, ir.Const):
-            return "ok skip"
-        if res is not root:
-            if isinstance(res, ir.Const):
-                return f"ok replace {res.ty.name} {res.value!r}"
-            return "ok replaced-by-" + type(res).__name__
-        if a0a is not None and root.a is a0a and root.a is not a0:
-            cn = root.b
-            if isinstance(cn, ir.Const):
-                return f"ok rechain {cn.ty.name} {cn.value!r}"
-            return "ok rechain-non-const"
+            return "err " + type(ex).__name__, None
+        after = self.readback(ret.result)
+        return "ok " + render(after).replace("?", "unknown"), after
+
+
+def legacy(e, obs, after):
+    """the effect on the ROOT instruction in the vocabulary of Model.ConstFold.Action (for the judges / histogram)"""
+    if after is None:
+        return obs
+    if e[0] == "c":
+        return "ok skip"
+    if after[0] == "c":
+        return f"ok replace {after[1]} {after[2]!r}"
+    if after == e:
         return "ok keep"
+    if (e[0] == "b" and e[3][0] == "b" and after[0] == "b" and after[2] == e[2] and after[4][0] == "c"
+            and after[3] == e[3][3] and params_of(e[3][3])):
+        return f"ok rechain {after[4][1]} {after[4][2]!r}"
+    return "ok rewritten"
 
 
 # ----------------------------------------------------------------------------------------------
@@ -239,26 +340,104 @@ class Plan:
         self.sinks.append(sink)
 
     # -- a single tree ---------------------------------------------------------------
-    def case(self, kind, e, sig_site, nontriv=False):
+    def case(self, kind, e, sig_site, nontriv=False, ys=None):
         r = render(e)
         if r in self.seen:
             return
         self.seen.add(r)
         ctx = self.ctx
-        impl = self.real.run(e)
+        obs, after = self.real.run(e)
+        impl = legacy(e, obs, after)
         ctx.count("eval_" + kind)
         ctx.count("outcome_" + " ".join(impl.split()[:2]))
         if nontriv or impl.startswith("err"):
             ctx.nontrivial(r)
         st = {"impl": impl}
-        self.ask("instr " + r, lambda m, r=r, impl=impl, kind=kind: (m != impl) and ctx.disagree(kind, r, impl, m))
+        self.ask("pass " + r, lambda m, r=r, obs=obs, kind=kind: (m != obs) and ctx.disagree(kind, r, obs, m))
         if closed(e) and spec_ok(e) and e[0] != "c":
             self.ask("spec " + r, lambda s, r=r, e=e, st=st, site=sig_site: self.judge(site, r, e, st["impl"], s))
         elif impl.startswith("ok replace"):
             self.judge(sig_site, r, e, impl, "ok undef")
+        if not closed(e):
+            self.judge_rewrite(e, obs, after, ys)
         if len(ctx.samples) < 6 and nontriv:
-            ctx.sample({"tree": r, "real_pass": impl})
+            ctx.sample({"tree": r, "real_pass": obs})
         return impl
+
+    def judge_rewrite(self, e, obs, after, ys=None):
+        """The property on ANY function with parameters that the real pass changed: every constant of the
+        new function is a value of its type, and before/after compute the same run-time value (Spec) for
+        all values of y0 (8-bit types; boundary+random otherwise), y1 at a few fixed values."""
+        ctx = self.ctx
+        r = render(e)
+        sk = skeleton(focus(e, after))
+        if after is None:
+            ctx.fail(f"on_block:rewrite[{sk}]:raises-{obs.split()[1]}", f"pass raised {obs[4:]} on `{r}`", r)
+            return
+        if after == e:
+            return
+        ctx.count("eval_rewritten_functions")
+        bad = [(t, v) for t, v in consts_of(after) if t not in BITS or not in_range(t, v)]
+        if bad or "unknown" in obs:
+            ctx.fail(f"on_block:rewrite[{sk}]:constant-out-of-range", f"`{r}` becomes `{obs[3:]}`: {bad} not a value of its type", r, impl=obs)
+            return
+        if not (spec_ok_open(e) and spec_ok_open(after)):
+            return
+        ps = params_of(e)
+        if not set(params_of(after)) <= set(ps):
+            ctx.fail(f"on_block:rewrite[{sk}]:new-parameter", f"`{r}` becomes `{obs[3:]}`", r, impl=obs)
+            return
+        t0 = ps.get(0)
+        others = [i for i in ps if i != 0]
+        fixed = [{}]
+        for i in others:
+            lo, hi = rng_of(ps[i])
+            fixed = [{**f, i: v} for f in fixed for v in (lo, hi, 1, self.ctx.rng.randint(lo, hi))]
+        for f in fixed:
+            if t0 is None:
+                pts = [None]
+            elif BITS[t0] == 8:
+                pts = "row"
+            else:
+                lo, hi = rng_of(t0)
+                pts = (ys or []) + [lo, hi, 0, 1, hi - 1, lo + 1, 2, 3] + [ctx.rng.randint(lo, hi) for _ in range(4)]
+                pts = [y for y in dict.fromkeys(pts) if lo <= y <= hi]
+            st = {}
+
+            def compare(tag, rep, st=st, f=f, pts=pts, t0=t0):
+                st[tag] = rep
+                if len(st) < 2:
+                    return
+                bs, as_ = st["before"].split(";"), st["after"].split(";")
+                lo = rng_of(t0)[0] if pts == "row" else 0
+                for k, (b, a) in enumerate(zip(bs, as_)):
+                    ctx.count("eval_rewrite_points")
+                    if b != "ok undef" and a != b:
+                        y = lo + k if pts == "row" else None
+                        ctx.fail(f"on_block:rewrite[{sk}]:value-differs",
+                                 f"`{r}` becomes `{obs[3:]}`: y0={y if y is not None else f.get(0)} {f}: before {b[3:]}, after {a[3:]}",
+                                 r, impl=obs, y=y if y is not None else f.get(0), others=f)
+                        return
+            if pts == "row":
+                lo, hi = rng_of(t0)
+                sub = {**f, 0: "@"}
+                self.ask(f"row {lo} {hi} spec {render_sub(e, sub)}", lambda rep, c=compare: c("before", rep))
+                self.ask(f"row {lo} {hi} spec {render_sub(after, sub)}", lambda rep, c=compare: c("after", rep))
+            else:
+                for y in pts:
+                    sub = dict(f) if y is None else {**f, 0: y}
+                    st2 = {}
+
+                    def cmp1(tag, rep, st2=st2, sub=sub):
+                        st2[tag] = rep
+                        if len(st2) == 2:
+                            ctx.count("eval_rewrite_points")
+                            if st2["before"] != "ok undef" and st2["after"] != st2["before"]:
+                                ctx.fail(f"on_block:rewrite[{sk}]:value-differs",
+                                         f"`{r}` becomes `{obs[3:]}`: parameters {sub}: before {st2['before'][3:]}, after {st2['after'][3:]}",
+                                         r, impl=obs, params=sub)
+                    self.ask("spec " + render_sub(e, sub), lambda rep, c=cmp1: c("before", rep))
+                    self.ask("spec " + render_sub(after, sub), lambda rep, c=cmp1: c("after", rep))
 
     def judge(self, site, r, e, impl, spec):
         """the property on the real output: spec = `ok <v>` | `ok undef`"""
@@ -298,7 +477,9 @@ class Plan:
         v1 = c1[2] if c1[0] == "c" else None
         v2 = c2[2] if c2[0] == "c" else None
         nt = v1 is not None and v2 is not None and not lo <= v1 + v2 <= hi
-        impl = self.case("chain", e, f"on_block:chain{op2}", nontriv=nt)
+        impl = self.case("chain", e, f"on_block:chain{op2}", nontriv=nt, ys=ys)
+        if impl is None:
+            return
         w = impl.split()
         if w[0] == "err":
             self.ask("spec b %s + %s %s" % (t, render(c1), render(c2)),
@@ -338,10 +519,12 @@ class Plan:
         """mk(v) -> tree for right operand v; one driver line for the whole row"""
         ctx = self.ctx
         lo, hi = rng_of(t)
-        impls, trees = [], []
+        impls, trees, obss = [], [], []
         for v in range(lo, hi + 1):
             e = mk(v)
-            impl = self.real.run(e)
+            obs, after = self.real.run(e)
+            impl = legacy(e, obs, after)
+            obss.append(obs)
             impls.append(impl)
             trees.append(e)
             ctx.count("eval_" + kind)
@@ -352,17 +535,17 @@ class Plan:
         ctx.nontrivial("row " + tmpl)
 
         def on_model(rep):
-            ms = rep.split("|")
+            ms = rep.split(";")
             if len(ms) != len(impls):
                 raise common.BrokenCheck("row reply length")
-            for e, i, m in zip(trees, impls, ms):
+            for e, i, m in zip(trees, obss, ms):
                 if i != m:
                     ctx.disagree(kind, render(e), i, m)
-        self.ask(f"row {lo} {hi} instr {tmpl}", on_model)
+        self.ask(f"row {lo} {hi} pass {tmpl}", on_model)
         e0 = mk(0)
         if closed(e0) and spec_ok(e0):
             def on_spec(rep):
-                ss = rep.split("|")
+                ss = rep.split(";")
                 for e, i, s in zip(trees, impls, ss):
                     self.judge(site_of, render(e), e, i, s)
             self.ask(f"row {lo} {hi} spec {tmpl}", on_spec)
@@ -370,10 +553,13 @@ class Plan:
             op, c1 = chain
 
             def on_sum(rep):
-                for e, i, s in zip(trees, impls, rep.split("|")):
+                for e, i, s in zip(trees, impls, rep.split(";")):
                     w = i.split()
                     if w[0] == "err":
                         ctx.fail(f"{site_of}:raises-{w[1]}", f"pass raised {w[1]} on `{render(e)}`", render(e))
+                    elif w[1] == "rewritten":
+                        ob, af = self.real.run(e)
+                        self.judge_rewrite(e, ob, af)
                     elif w[1] == "rechain":
                         ctx.count("eval_chain_rewrites")
                         if w[2] != t or "." in w[3] or not in_range(t, int(w[3])):
@@ -421,6 +607,115 @@ CORPUS_CHAIN = [
     ("u8", "-", 200, 100), ("i8", "+", 127, 1), ("i8", "+", 5, 5), ("i16", "+", 32767, 1), ("i32", "+", (1 << 31) - 1, (1 << 31) - 1),
     ("i64", "-", -(1 << 63), -(1 << 63)), ("u64", "+", (1 << 64) - 1, 1), ("u16", "-", 65535, 65535),
 ]
+
+
+def chain_shapes(ctx, P):
+    """Every SHAPE of a two/three-step chain, whether or not the current code rewrites it: inner and outer
+    operator in {+,-} (other operators as negatives), inner constant left/right/both/neither, the chain on
+    the left or right of the outer operation, outer operand constant / y / another parameter, chains of
+    length 3, the chain value used twice, chains through casts.  Each function the real pass changes is
+    judged before/after against Spec for all y (8-bit) or boundary+random y (Plan.judge_rewrite)."""
+    rng, th = ctx.rng, ctx.thorough
+    PM = ("+", "-")
+    NEG = ("*", "&", "<<", "%", "|")
+
+    for t in TYPES:
+        lo, hi = rng_of(t)
+        bs = boundary(t)
+        eight = BITS[t] == 8
+        Y, Z = ("o", t, 0), ("o", t, 1)
+        fixed = [5, 3, 7, 2, 11, 1]
+
+        def consts(n, k):
+            """k-th assignment of n constants: small fixed, then 100-ish (wrap), then boundary/random"""
+            if k == 0:
+                return fixed[:n]
+            if k == 1:
+                return [v for v in (100, 100, 27, 100, 90, 77)][:n]
+            return [rng.choice(bs) if rng.random() < 0.6 else rng.randint(lo, hi) for _ in range(n)]
+
+        def fill(shape, k):
+            """shape: nested tuples with 'c' placeholders -> tree"""
+            n = [0]
+            vals = consts(12, k)
+
+            def go(x):
+                if x == "c":
+                    n[0] += 1
+                    return ("c", t, vals[n[0] - 1] if lo <= vals[n[0] - 1] <= hi else vals[n[0] - 1] % (hi + 1))
+                if x == "y":
+                    return Y
+                if x == "z":
+                    return Z
+                return ("b", t, x[0], go(x[1]), go(x[2]))
+            return go(shape)
+
+        def has_param(x):
+            return x in ("y", "z") or (isinstance(x, tuple) and (has_param(x[1]) or has_param(x[2])))
+
+        atoms2 = ("y", "c", "z") if eight or th else ("y", "c")
+        level1 = [(o, a, b) for o in PM for a in atoms2 for b in atoms2]
+        level2 = []
+        for inner in level1:
+            for o in PM:
+                for x in atoms2:
+                    level2.append((o, inner, x))
+                    level2.append((o, x, inner))
+        level2 = [x for x in level2 if has_param(x)]
+        nassign = (6 if th else 3) if eight else (4 if th else 2)
+        for sh in level2:
+            for k in range(nassign):
+                P.case("shape2", fill(sh, k), "on_block:shape", nontriv=True)
+        # negatives: one of the two operators is not + / -
+        for inner in [(o, a, b) for o in PM + NEG[:3] for a in ("y", "c") for b in ("y", "c")]:
+            for o in PM + NEG:
+                if inner[0] in PM and o in PM:
+                    continue
+                for sh in ((o, inner, "c"), (o, "c", inner)):
+                    if has_param(sh):
+                        e = fill(sh, 0)
+                        if o in ("<<",) or inner[0] in ("<<",):
+                            continue
+                        P.case("shape_neg", e, "on_block:shape", nontriv=True)
+        # chains of length 3
+        l2 = [x for x in level2 if "z" not in str(x)]
+        level3 = [(o, s2, x) for s2 in l2 for o in PM for x in ("c", "y")] + [(o, x, s2) for s2 in l2 for o in PM for x in ("c", "y")]
+        if not (eight or th):
+            level3 = rng.sample(level3, 48)
+        elif not th:
+            level3 = rng.sample(level3, 160)
+        for sh in level3:
+            P.case("shape3", fill(sh, rng.randrange(3)), "on_block:shape", nontriv=True)
+        # the chain value used twice:  q = y op1 c | c op1 y ;  (q op2 c) op3 q ,  q op3 (q op2 c) , (c op2 q) op3 q
+        for o1 in PM:
+            for q in ((o1, "y", "c"), (o1, "c", "y")):
+                for o2 in PM:
+                    for o3 in PM:
+                        for sh in ((o3, (o2, q, "c"), q), (o3, q, (o2, q, "c")), (o3, (o2, "c", q), q)):
+                            # the same constant in both copies of q, so that they are ONE instruction
+                            e = fill(sh, 0)
+                            qt = e[3][3] if sh[1] != q else e[3]
+                            if sh[1] != q:      # (.. q ..) op3 q
+                                qt = e[3][3] if sh[1][1] == q else e[3][4]
+                                e = ("b", t, o3, e[3], qt)
+                            else:               # q op3 (q op2 c)
+                                e = ("b", t, o3, e[3], ("b", t, o2, e[3], e[4][4]))
+                            P.case("shape_shared", e, "on_block:shape", nontriv=True)
+        # chains through a cast (mixed types): (T)(y:S op1 c) op2 c ,  (T)((y op1 c) op2 c)
+        for src in (rng.sample(TYPES, 3) if not th else TYPES):
+            if src == t:
+                continue
+            sl, shh = rng_of(src)
+            ys = ("o", src, 0)
+            for o1 in PM:
+                for o2 in PM:
+                    for left in (False, True):
+                        c1 = ("c", src, min(5, shh))
+                        inner = ("b", src, o1, c1, ys) if left else ("b", src, o1, ys, c1)
+                        P.case("shape_cast", ("b", t, o2, ("k", t, inner), ("c", t, 3)), "on_block:shape", nontriv=True)
+                        c2 = ("c", src, min(3, shh))
+                        P.case("shape_cast", ("k", t, ("b", src, o2, inner, c2)), "on_block:shape", nontriv=True)
+        P.flush(force=False)
 
 
 def non_integer_chains(ctx, real):
@@ -608,6 +903,7 @@ def check(ctx):
         op = rng.choice("+-")
         P.chain(t, op, op, tree(t, 2), tree(t, 2), [])
     # shapes that must be left alone
+    chain_shapes(ctx, P)
     for t in TYPES:
         lo, hi = rng_of(t)
         y, y1, c = ("o", t, 0), ("o", t, 1), C(t, hi)
